@@ -306,6 +306,7 @@ func (e *Engine) verifyFunc(f *ssa.Function) *FnRun {
 	top := &frame{fn: f, fc: r.fc, cs: r.cs, depth: 0, top: true}
 	top.onReturn = func(s *State, res []*V) { r.checkReturn(s, top, res) }
 	if r.fc != nil && r.fc.Trusted {
+		r.noteTrustedBody(f.Pkg.Pkg.Name()+":"+r.relName, f)
 		return r
 	}
 	r.exec(st, top, f.Blocks[0], 0)
